@@ -10,6 +10,7 @@ PROPS = "Props/Properties_C11.v"
 MODULES = ["math", "pe", "elf", "time", "console", "string", "hash"]
 _NS3 = ["default", "nsb", "nsc"]
 SCALE_BUF = b"..q69z..q64z..q71z..abc.."
+SCALE_BUF2 = b"zz"      # no "abc", none of the q-strings, filesize <= 3: the scale rule sets flip most verdicts between the two
 
 
 def nsname(i):
@@ -95,8 +96,8 @@ class RuleSet:
         out = []
         for ns, r in self.rules():
             c = r["cond"]
-            if isinstance(c, tuple) and c[0] == "raw":      # condition text given with its value
-                v = c[2]
+            if isinstance(c, tuple) and c[0] == "raw":      # condition text given with its value (constant or function of the buffer)
+                v = c[2](buf) if callable(c[2]) else c[2]
             elif isinstance(c, tuple):      # reference to an earlier rule of the same namespace: its raw result bit
                 v = raw[c[1]]
             else:
@@ -214,11 +215,17 @@ def many_namespaces(n, failing, mods):
             imps = [mods[2 % len(mods)], mods[1]]
         rs = []
         for role in ("g", "p", "t", "f") + (("gp",) if i % 16 == 5 else ()):
+            # verdicts depend on the buffer ("$a" holds on SCALE_BUF, "not $a" on SCALE_BUF2) so that consecutive scans on
+            # one scanner differ: whatever a scan leaves behind shows in the next one
             cond = 0
             if role == "g" and i in failing:
-                cond = 1
+                cond = 1 if i % 2 == 0 else 4
             if role == "f":
                 cond = 1
+            if role == "p" and i % 3 == 0:
+                cond = 3
+            if role == "t":
+                cond = 3 if i % 2 else 4
             if role == "t" and imps and imps[0] == "math":
                 cond = 5
             rs.append({"name": "r%d" % k, "g": int(role in ("g", "gp")), "p": int(role in ("p", "gp")), "d": 0, "cond": cond})
@@ -228,20 +235,26 @@ def many_namespaces(n, failing, mods):
 
 
 def many_rules(n, true_at, glob=None, glob_cond=0):
-    """n rules in one namespace; rule k true iff k in true_at; every 7th private; a few disabled; optionally one global"""
+    """n rules in one namespace; rule k holds on SCALE_BUF iff k in true_at and on SCALE_BUF2 iff not; every 7th private; a few
+    disabled; optionally one global"""
     rs = []
     for k in range(n):
         rs.append({"name": "r%d" % k, "g": int(k == glob), "p": int(k % 7 == 3), "d": int(k in (30, 66, 130)),
-                   "cond": (glob_cond if k == glob else (0 if k in true_at else 1))})
+                   "cond": (glob_cond if k == glob else (3 if k in true_at else 4))})
     return RuleSet([(0, [], rs)])
 
 
 def many_strings(nstr=72):
     """rules with nstr strings each; SCALE_BUF contains q69z, q64z and q71z only"""
     decl = "strings: " + " ".join('$s%d = "q%02dz"' % (i, i) for i in range(nstr)) + " "
-    present = {64, 69, 71}
-    conds = [("$s69", True), ("$s33", False), ("$s64 and not $s31", True), ("#s71 == 1", True), ("#s70 == 0 and #s63 == 0", True),
-             ("any of them", True), ("all of them", False), ("3 of them", True), ("4 of them", False), ("$s32 or $s65", False)]
+    def pres(b):
+        return {i for i in range(nstr) if ("q%02dz" % i).encode() in b}
+    conds = [("$s69", lambda b: 69 in pres(b)), ("$s33", lambda b: 33 in pres(b)),
+             ("$s64 and not $s31", lambda b: 64 in pres(b) and 31 not in pres(b)),
+             ("#s71 == 1", lambda b: b.count(b"q71z") == 1), ("#s70 == 0 and #s63 == 0", lambda b: not ({70, 63} & pres(b))),
+             ("any of them", lambda b: len(pres(b)) >= 1), ("all of them", lambda b: len(pres(b)) == nstr),
+             ("3 of them", lambda b: len(pres(b)) >= 3), ("4 of them", lambda b: len(pres(b)) >= 4),
+             ("$s32 or $s65", lambda b: bool({32, 65} & pres(b)))]
     rs0, rs1 = [], []
     for k, (text, v) in enumerate(conds):
         # "them" makes every string referenced (an unreferenced string is a compile error)
@@ -325,7 +338,8 @@ def run(chk):
         scans = []
         nmsgs = 2 * len(set(rs.import_ids())) + len(rs.rules()) + 1
         bufs = [BUFS[3]] if kind == "small" else [SCALE_BUF] if kind == "scale" else [sg.choice(BUFS), BUFS[3]]
-        for buf in bufs:
+        alt = 0
+        for buf0 in bufs:
             for f in FLAGS:
                 exhaustive = nmsgs <= 12 and (kind != "random" or not quick or f == 0)
                 scs = scripts_for(nmsgs, sg, exhaustive)
@@ -333,6 +347,10 @@ def run(chk):
                     scs = scs[:1] + ["%d:%d" % (k, a) for k in sorted(set(sg.below(nmsgs + 1) for _ in range(3)) | {sg.choice([31, 32, 33, 64, 65, 128, 129]) % (nmsgs + 1)})
                                      for a in (1, 2)] + scs[-1:]
                 for sc in scs:
+                    buf = buf0
+                    if kind == "scale":      # consecutive scans on the one scanner alternate between the two buffers
+                        buf = (SCALE_BUF, SCALE_BUF2)[alt % 2]
+                        alt += 1
                     entry = "scan" if sg.chance(4, 5) else "rscan"
                     scans.append((f, sc, buf, entry))
                     cmds.append("script " + sc)
@@ -395,8 +413,13 @@ def run(chk):
                 n_bits += 1
                 b = dict(x.split("=") for x in bits.split(" ")[1:])
                 if b["rm"] != exp_rm or b["ns"] != exp_ns:
-                    chk.violation("bitmaps", "rule_matches_flags / ns_unsatisfied_flags differ from the model: impl=%s model rm=%s ns=%s"
-                                  % (bits, exp_rm, exp_ns), replay)
+                    def fd(a, c):
+                        return next((i for i, (x, y) in enumerate(zip(a, c)) if x != y), min(len(a), len(c)))
+                    drm, dns = fd(b["rm"], exp_rm), fd(b["ns"], exp_ns)
+                    chk.violation("bitmaps", "the bitmaps the report loop reads differ from the model (%d rules, %d namespaces, flags=%d script=%s): "
+                                  "%s" % (len(rs.rules()), len(rs.ns_order()), f, sc,
+                                          ("rule_matches_flags first differs at rule %d: impl ..%s model ..%s; " % (drm, b["rm"][max(0, drm - 3):drm + 4], exp_rm[max(0, drm - 3):drm + 4]) if b["rm"] != exp_rm else "") +
+                                          ("ns_unsatisfied_flags first differs at namespace %d: impl ..%s model ..%s" % (dns, b["ns"][max(0, dns - 3):dns + 4], exp_ns[max(0, dns - 3):dns + 4]) if b["ns"] != exp_ns else "")), replay)
                     continue
             stopped = ("F",) not in exp_msgs
             n_stop += stopped
